@@ -8,6 +8,7 @@ Notation: `X` training matrix (list of rows), `ids` the sensitive column positio
 -/
 import FairModel.Lemmas.CorrRemover
 import FairModel.Lemmas.CorrLifted
+import FairModel.Lemmas.CorrUnique
 
 namespace C15
 open CorrRemover Finset
@@ -237,6 +238,117 @@ theorem drops_sensitive_keeps_order (p : Params) (X : Mat) :
     obtain ⟨x, _, rfl⟩ := hr
     exact length_transformRow p x
 
+/-! ### is the output well defined when `beta_` is not? (finding F10: rank-deficient `lstsq`)
+
+`numpy.linalg.lstsq` returns SOME solution of the normal equations; on collinear / duplicated / constant sensitive
+columns there are many.  The theorems below show that the property's output does not depend on which one:
+every solution gives the same residual, hence the same `fit_transform` output (and zero covariance, by `uncorrelated`).
+The coefficients themselves are unique exactly when the centred sensitive columns are linearly independent, i.e. when
+their Gram matrix is nonsingular.  F10 (covariance −0.0625 with `beta_ ≈ 4.9e14`) therefore is a pure floating-point
+artefact: the returned `beta_` does not solve the normal equations to working precision. -/
+
+/-- shape of the least-squares problem `fit` poses on a training matrix `X` -/
+theorem fit_problem_shaped (ids : List Nat) (m : Nat) (X : Mat) :
+    Shaped (center (sens ids X) (fitMean ids X)) (nonSens ids m X) ids.length (nonSensIdx ids m).length := by
+  have hm : (fitMean ids X).length = ids.length := by simp [fitMean, colMeans, length_vec]
+  refine ⟨by simp [center, sens, nonSens], ?_⟩
+  intro i hi
+  have hi' : i < X.length := by simpa [center, sens] using hi
+  constructor
+  · have : (center (sens ids X) (fitMean ids X)).getD i [] = vsub (pick ids (X.getD i [])) (fitMean ids X) := by
+      simp [center, sens, List.getD_eq_getElem?_getD, hi']
+    rw [this, length_vsub, length_pick, hm, Nat.min_self]
+  · have : (nonSens ids m X).getD i [] = pick (nonSensIdx ids m) (X.getD i []) := by
+      simp [nonSens, List.getD_eq_getElem?_getD, hi']
+    rw [this, length_pick]
+
+/-- `residual_unique`: ANY two coefficient matrices satisfying the normal equations (unique or not) give the same
+    residual `Z − Sc·β`, entry by entry. -/
+theorem residual_unique (Sc Z β₁ β₂ : Mat) (ms mz : Nat) (hs : Shaped Sc Z ms mz)
+    (h₁ : isLstsq Sc Z β₁ ms mz = true) (h₂ : isLstsq Sc Z β₂ ms mz = true) :
+    ∀ i, i < Sc.length → ∀ j, j < mz → ent (residual Sc Z β₁) i j = ent (residual Sc Z β₂) i j := by
+  intro i hi j hj
+  have n1 := (isLstsq_iff_normalEq Sc Z β₁ ms mz hs).mp h₁ j hj
+  have n2 := (isLstsq_iff_normalEq Sc Z β₂ ms mz hs).mp h₂ j hj
+  have hf := normalEq_fitted_unique _ _ _ _ _ _ n1 n2 i hi
+  have hjz : j < (Z.getD i []).length := by rw [(hs.2 i hi).2]; exact hj
+  rw [ent_residual Sc Z β₁ ms i j hi hs.1 (hs.2 i hi).1 hjz, ent_residual Sc Z β₂ ms i j hi hs.1 (hs.2 i hi).1 hjz, hf]
+
+/-- the `fit_transform` output (alpha = 1) is the same for EVERY least-squares solution `beta_` -/
+theorem output_independent_of_solution (ids : List Nat) (m : Nat) (X β₁ β₂ : Mat)
+    (h₁ : isLstsq (center (sens ids X) (fitMean ids X)) (nonSens ids m X) β₁ ids.length (nonSensIdx ids m).length = true)
+    (h₂ : isLstsq (center (sens ids X) (fitMean ids X)) (nonSens ids m X) β₂ ids.length (nonSensIdx ids m).length = true) :
+    transform (fitted ids m X β₁ 1) X = transform (fitted ids m X β₂ 1) X := by
+  have hs := fit_problem_shaped ids m X
+  unfold fitted
+  rw [transform_one_eq_residual, transform_one_eq_residual]
+  set Sc := center (sens ids X) (fitMean ids X) with hSc
+  set Z := nonSens ids m X with hZ
+  have hlen : ∀ β : Mat, (residual Sc Z β).length = Sc.length := by
+    intro β; simp [residual, hs.1]
+  have hrow : ∀ (β : Mat) i, i < Sc.length → ((residual Sc Z β).getD i []).length = (nonSensIdx ids m).length := by
+    intro β i hi
+    have : (residual Sc Z β).getD i [] = residRow β (Sc.getD i []) (Z.getD i []) := by
+      simp [residual, List.getD_eq_getElem?_getD, hi, hs.1 ▸ hi]
+    rw [this, length_residRow, (hs.2 i hi).2]
+  apply mat_ext
+  · rw [hlen, hlen]
+  · intro i hi
+    rw [hlen] at hi
+    rw [hrow β₁ i hi, hrow β₂ i hi]
+  · intro i hi j hj
+    rw [hlen] at hi
+    rw [hrow β₁ i hi] at hj
+    exact residual_unique Sc Z β₁ β₂ _ _ hs h₁ h₂ i hi j hj
+
+/-- the Gram matrix of the centred sensitive columns is nonsingular ⇔ these columns are linearly independent -/
+theorem gram_nonsingular_iff_independent (Sc : Mat) (ms : Nat) :
+    GramNonsingular (ent Sc) Sc.length ms ↔ ColumnsIndependent (ent Sc) Sc.length ms :=
+  gramNonsingular_iff_columnsIndependent _ _ _
+
+/-- `normal_equations_unique_iff`: given one solution `β₀` and at least one target column, the solution of the normal
+    equations is unique (entry-wise) exactly when the centred sensitive columns are linearly independent — equivalently
+    when their Gram matrix is nonsingular. -/
+theorem normal_equations_unique_iff (Sc Z β₀ : Mat) (ms mz : Nat) (hs : Shaped Sc Z ms mz) (hmz : 0 < mz)
+    (h₀ : isLstsq Sc Z β₀ ms mz = true) :
+    (∀ β, isLstsq Sc Z β ms mz = true → ∀ q, q < ms → ∀ j, j < mz → ent β q j = ent β₀ q j)
+      ↔ GramNonsingular (ent Sc) Sc.length ms := by
+  rw [gram_nonsingular_iff_independent]
+  have n0 := (isLstsq_iff_normalEq Sc Z β₀ ms mz hs).mp h₀
+  constructor
+  · intro hu
+    -- perturb column 0 of β₀ by a kernel vector d
+    rw [← normalEq_unique_iff (ent Sc) (fun i => ent Z i 0) Sc.length ms (fun q => ent β₀ q 0) (n0 0 hmz)]
+    intro w hw q hq
+    let β := matOf ms mz (fun q j => if j = 0 then w q else ent β₀ q j)
+    have hβ : isLstsq Sc Z β ms mz = true := by
+      rw [isLstsq_iff_normalEq Sc Z β ms mz hs]
+      intro j hj k hk
+      by_cases hj0 : j = 0
+      · subst hj0
+        have e : ∀ i ∈ Finset.range Sc.length, ent Sc i k * (ent Z i 0 - lin (ent Sc) ms (fun q => ent β q 0) i)
+            = ent Sc i k * (ent Z i 0 - lin (ent Sc) ms w i) := by
+          intro i _
+          rw [lin_congr (ent Sc) ms (fun q => ent β q 0) w i (by
+            intro q hq; simp only [β]; rw [ent_matOf _ _ _ _ _ hq hmz]; simp)]
+        rw [Finset.sum_congr rfl e]
+        exact hw k hk
+      · have e : ∀ i ∈ Finset.range Sc.length, ent Sc i k * (ent Z i j - lin (ent Sc) ms (fun q => ent β q j) i)
+            = ent Sc i k * (ent Z i j - lin (ent Sc) ms (fun q => ent β₀ q j) i) := by
+          intro i _
+          rw [lin_congr (ent Sc) ms (fun q => ent β q j) (fun q => ent β₀ q j) i (by
+            intro q hq; simp only [β]; rw [ent_matOf _ _ _ _ _ hq hj]; simp [hj0])]
+        rw [Finset.sum_congr rfl e]
+        exact n0 j hj k hk
+    have := hu β hβ q hq 0 hmz
+    simp only [β] at this
+    rw [ent_matOf _ _ _ _ _ hq hmz] at this
+    simpa using this
+  · intro hind β hβ q hq j hj
+    have nb := (isLstsq_iff_normalEq Sc Z β ms mz hs).mp hβ j hj
+    exact (normalEq_unique_iff (ent Sc) (fun i => ent Z i j) Sc.length ms (fun q => ent β₀ q j) (n0 j hj)).mpr hind
+      (fun q => ent β q j) nb q hq
+
 /-! ### the tie to the source: definitions LIFTED from `_correlation_remover.py`
 (`Generated/CorrRemoverSrc.lean`, rewritten from /repo on every run by harness/lifters/corr_remover.py; `CorrL.*` is the
 model re-built from them).  The clauses of the property are re-proved for the lifted text, so an edit of the centring,
@@ -367,6 +479,9 @@ example : isLstsq (center (sens [0, 1] dupX) (fitMean [0, 1] dupX)) (nonSens [0,
   decide +kernel
 /-- ids given in non-increasing order: the kept columns still come out in their original order -/
 example : nonSensIdx [3, 0] 5 = [1, 2, 4] := by decide +kernel
+/-- the two different solutions for the duplicated columns give the same output (instance of `output_independent_of_solution`) -/
+example : transform (fitted [0, 1] 3 dupX [[1/2], [0]] 1) dupX = transform (fitted [0, 1] 3 dupX [[1/4], [1/4]] 1) dupX := by
+  decide +kernel
 example : CorrL.keptIdx [3, 0] 5 = [1, 2, 4] := by decide +kernel
 example : CorrL.isLstsqSrc [0, 1] 3 f2X okβ = true := by decide +kernel
 example : CorrL.transformSrc ⟨[0, 1], 3, CorrL.fitMeanSrc [0, 1] f2X, okβ, 1/2⟩ f2X = [[1/6], [1/6], [2/3]] := by decide +kernel
